@@ -379,6 +379,22 @@ by P3), every loop ends, and the verdict is the list-level model's (the one C02 
 theorem C17_ix_check (set : SortedSet) (acrhs : List Bytes) : Ix.check set acrhs = .ok (Headers.check set acrhs) :=
   Ix.check_refines set acrhs
 
+/-- **P8 (Parse).** `origins.Parse` composed of the index-level lexers. -/
+theorem C17_ix_parse (str : Bytes) : Ix.parse str = .ok (Lex.parse str) := Ix.parse_refines str
+/-- **P8 (Tree.Contains, node.contains).** The look-up loop on the parallel slices of the nodes
+(`n.edges`/`n.children`, `n.schemes`/`n.ports`, the position being where `slices.BinarySearch` finds the label resp.
+the scheme): `n.children[i]`, `n.ports[i]`, `lastByte`, `splitAtCommonSuffix` stay in range on **every** tree value
+of the model (the parallel slices are the two projections of one list of pairs there, so "equal lengths" is built
+into the representation; `C17_ix_insert` shows that the code's `insert` on both slices at the same `i` keeps them
+so), the loop ends within depth-of-the-tree iterations, and the answer is `Tree.contains`. -/
+theorem C17_ix_treeContains (t : Node) (o : Origin) : Ix.treeContains t o = .ok (Tree.contains t o) :=
+  Ix.treeContains_refines t o
+/-- **P8 (request path).** For every tree and every byte string sent as `Origin`: `Parse` followed by
+`Tree.Contains` never indexes out of range, always ends, and decides what the list-level model decides. -/
+theorem C17_ix_originAllowed (t : Node) (str : Bytes) :
+    Ix.originAllowed t str = .ok (match Lex.parse str with | none => false | some o => Tree.contains t o) :=
+  Ix.originAllowed_refines t str
+
 /-- The checked operations do report what Go would panic on (the theorems above are not vacuous): reading past
 the end, an inverted slice, `parseScheme` without its `len(str) == 0 ||` guard, `lastByte` without its guard. -/
 example : Ix.idx [1, 2, 3] 3 = .error () := by rfl
@@ -412,6 +428,9 @@ transliteration was written from (Gen/Facts.lean carries today's texts in the co
   * `util.(*ASCIISet).Contains|func(c byte) bool { return (as[c/32] & (1 << (c % 32))) != 0 }`
   * `headers.Check|func(set util.SortedSet, acrhs []string) bool { maxLen := MaxOWSBytes + set.MaxLen() + MaxOWSBytes + 1 var ( posOfLastNameSeen = -1 name string commaFound bool emptyElements int ok bool ) for _, acrh := range acrhs { for { name, acrh, commaFound = cutAtComma(acrh, maxLen) name, ok = TrimOWS(name, MaxOWSBytes) if !ok { return false } if name == "" { emptyElements++ if emptyElements > MaxEmptyElements { return false } if !commaFound { break } continue } i := set.IndexAfter(posOfLastNameSeen, name) if i < 0 { return false } posOfLastNameSeen = i if !commaFound { break } } } return true }`
   * `util.(SortedSet).IndexAfter|func(n int, e string) int { if set.maxLen < uint(len(e)) { return -1 } start := n + 1 i, found := slices.BinarySearch(set.elems[start:], e) if !found { return -1 } return start + i }`
+  * `origins.Parse|func(str string) (Origin, bool) { const maxOriginLen = maxSchemeLen + len(schemeHostSep) + maxHostPortLen + 1 if len(str) > maxOriginLen { return zeroOrigin, false } scheme, str, ok := parseScheme(str) if !ok { return zeroOrigin, false } str, ok = strings.CutPrefix(str, schemeHostSep) if !ok { return zeroOrigin, false } host, str, ok := fastParseHost(str) if !ok { return zeroOrigin, false } var port int if len(str) > 0 { str, ok = strings.CutPrefix(str, string(hostPortSep)) if !ok { return zeroOrigin, false } port, str, ok = parsePort(str) if !ok || str != "" { return zeroOrigin, false } } o := Origin{ Scheme: scheme, Host: host, Port: port, } return o, true }`
+  * `origins.(*Tree).Contains|func(o *Origin) bool { host := o.Host.Value n := &t.root for { label, ok := lastByte(host) if !ok { return n.contains(o.Scheme, o.Port, false) } if n.contains(o.Scheme, o.Port, true) { return true } i, found := slices.BinarySearch(n.edges, label) if !found { return false } n = &n.children[i] prefixOfHost, _, suf := splitAtCommonSuffix(host, n.suf) if len(suf) != len(n.suf) { return false } host = prefixOfHost } }`
+  * `origins.(*node).contains|func(scheme string, port int, wildcardSubs bool) (found bool) { wildcardPort := wildcardPort if wildcardSubs { port -= portOffset wildcardPort -= portOffset } i, found := slices.BinarySearch(n.schemes, scheme) if !found { return } ports := n.ports[i] _, found = slices.BinarySearch(ports, port) if found { return } _, found = slices.BinarySearch(ports, wildcardPort) return }`
 -/
 def auditedBodies : List Bytes := [
   Spec.b "origins.parseScheme|04a7c4ffcf12f0724767ced4",
@@ -428,7 +447,10 @@ def auditedBodies : List Bytes := [
   Spec.b "util.MakeASCIISet|32a0ffb8e82102331e8343b7",
   Spec.b "util.(*ASCIISet).Contains|d91cdec9740b2a4dc9133158",
   Spec.b "headers.Check|bd2865f1784a37ea10b3264f",
-  Spec.b "util.(SortedSet).IndexAfter|678117c59beca02b1cce59bc"
+  Spec.b "util.(SortedSet).IndexAfter|678117c59beca02b1cce59bc",
+  Spec.b "origins.Parse|08f500fa72f0663bc058fa76",
+  Spec.b "origins.(*Tree).Contains|77792374ce1547a86a9c22a6",
+  Spec.b "origins.(*node).contains|7c33deaa5f428dcb89cf28d9"
 ]
 
 /-- **C17 (bodies).** The functions modelled at index level read, today, exactly as they did when the
@@ -455,6 +477,9 @@ theorem C17_ix_bodies : Facts.cors_ixBodies = auditedBodies := by decide +kernel
 #print axioms C17_ix_first
 #print axioms C17_ix_asciiSet
 #print axioms C17_ix_check
+#print axioms C17_ix_parse
+#print axioms C17_ix_treeContains
+#print axioms C17_ix_originAllowed
 #print axioms C17_ix_bodies
 
 end Cors
